@@ -73,7 +73,10 @@ pub fn install_panic_hook() {
 
 /// Panic site codes (lean/Midi/Model/Prim.lean `Panic.code`).
 pub fn panic_code(msg: &str) -> i64 {
-    if msg.starts_with("invalid status byte detected") {
+    if msg.contains("TryFromGreaterError") || msg.contains("FromBytesError") {
+        // `expect` on a conversion result in test_util.rs
+        10
+    } else if msg.starts_with("invalid status byte detected") {
         1
     } else if msg.starts_with("invalid status byte") {
         2
